@@ -243,6 +243,9 @@ func (ex *Exec) appendBytes(fr *Frame, a0, a1 Value) Value {
 		}
 	}
 	for _, a := range t.Alts {
+		if _, ok := a.Tgt.(LineT); ok && len(s.Alts) == 0 {
+			return t // append([]byte(nil), line...) = copy of the line object
+		}
 		if _, ok := a.Tgt.(BoxT); ok {
 			if len(s.Alts) == 0 && len(t.Alts) == 1 {
 				return t // append([]byte(nil), box...) = copy
